@@ -11,6 +11,7 @@ import (
 	"net/url"
 	"os"
 	"path/filepath"
+	"strings"
 	"testing"
 	"time"
 
@@ -137,6 +138,11 @@ func c12rCheck(env *c12rEnv, x *xsched.Exec) []vrt.Finding {
 func TestVerifC12Race(t *testing.T) {
 	r := vrt.Start("C12")
 	c12rDir = t.TempDir()
+	// Refreshes replace their cache files with fsync; a tmpfs directory keeps
+	// that cheap.  The files are real files either way.
+	if d, derr := os.MkdirTemp("/dev/shm", "verif-c12-"); derr == nil {
+		c12rDir = d
+	}
 	var err error
 	c12rMsgs, err = dnsmsg.NewConstructor(&dnsmsg.ConstructorConfig{
 		Cloner: c12rCloner, BlockingMode: &dnsmsg.BlockingModeNullIP{}, StructuredErrors: agdtest.NewSDEConfig(true),
@@ -186,5 +192,8 @@ func TestVerifC12Race(t *testing.T) {
 		}
 	}
 	r.Finish()
+	if strings.HasPrefix(c12rDir, "/dev/shm/") {
+		_ = os.RemoveAll(c12rDir)
+	}
 	os.Exit(0)
 }
